@@ -194,6 +194,7 @@ type Engine struct {
 	ufApps      map[string]*Term // every uninterpreted application built, by its printed form
 	OvfChecks   int
 	Trivial     int
+	Folded      int
 	Discharged  int
 	Samples     []string
 	NoValidate  bool
